@@ -59,7 +59,8 @@ def gen_base(rng, today_year):
     codes = lex.rated_codes()
     if rng.random() < 0.25:
         codes = CURRENCY_ALIASES
-    zones = sorted(lex.admissible_zones('en'))
+    # WST and TMT are zone names and currency codes at once; behind a clock time they are zones, in whatever letter case
+    zones = sorted(lex.admissible_zones('en')) + ['WST', 'TMT'] * 8
     lm, sm = lex.months('en')
     months = sorted(lm) + sorted(sm)
     k = rng.randrange(16)
